@@ -200,7 +200,9 @@ func (fu *folderUpload) FormattedPath() string {
 		pathData = pathData[3+segLen:]
 	}
 
-	return filepath.Join(pathSegments...)
+	// Root the client-supplied segments before making the path relative again, so that "." and ".."
+	// segments cannot climb out of the folder the items are uploaded into.
+	return strings.TrimPrefix(filepath.Join("/", filepath.Join(pathSegments...)), "/")
 }
 
 type FileHeader struct {
